@@ -177,3 +177,61 @@ func isFloatKind(k reflect.Kind) bool {
 func resolvedKind(v reflect.Value) reflect.Kind {
 	return Resolve(v).Kind()
 }
+
+// DeepEqual reports whether two JSONata values are equal: numbers
+// are compared numerically (whatever their Go types), strings and
+// booleans by value, arrays member by member and objects key by
+// key. Values of any other type (e.g. functions) are equal only if
+// they are identical.
+func DeepEqual(v1, v2 reflect.Value) bool {
+	v1, v2 = Resolve(v1), Resolve(v2)
+
+	if n1, ok := AsNumber(v1); ok {
+		n2, ok := AsNumber(v2)
+		return ok && n1 == n2
+	}
+
+	if s1, ok := AsString(v1); ok {
+		s2, ok := AsString(v2)
+		return ok && s1 == s2
+	}
+
+	if b1, ok := AsBool(v1); ok {
+		b2, ok := AsBool(v2)
+		return ok && b1 == b2
+	}
+
+	switch {
+	case IsArray(v1):
+		if !IsArray(v2) || v1.Len() != v2.Len() {
+			return false
+		}
+		for i := 0; i < v1.Len(); i++ {
+			if !DeepEqual(v1.Index(i), v2.Index(i)) {
+				return false
+			}
+		}
+		return true
+	case IsMap(v1):
+		if !IsMap(v2) || v1.Len() != v2.Len() || v1.Type().Key() != v2.Type().Key() {
+			return false
+		}
+		for _, k := range v1.MapKeys() {
+			e2 := v2.MapIndex(k)
+			if !e2.IsValid() || !DeepEqual(v1.MapIndex(k), e2) {
+				return false
+			}
+		}
+		return true
+	}
+
+	if !v1.IsValid() || !v2.IsValid() {
+		return v1.IsValid() == v2.IsValid()
+	}
+
+	if v1.Type() != v2.Type() || !v1.Type().Comparable() || !v1.CanInterface() || !v2.CanInterface() {
+		return false
+	}
+
+	return v1.Interface() == v2.Interface()
+}
